@@ -408,10 +408,20 @@ func headersFromExpr(headers *expr.MappedAttributeExpr) map[string]*Header {
 	}
 	res := make(map[string]*Header)
 	codegen.WalkMappedAttr(headers, func(_, n string, _ bool, at *expr.AttributeExpr) error { // nolint: errcheck
+		// Compute the Swagger type, format and items the same way as for
+		// request parameters: at.Type.Name() is the goa type name ("int",
+		// "uint32", "bytes", the name of an alias type...) which is not a
+		// valid Swagger type and arrays must define their items.
+		p := paramFor(at, n, "header", false)
 		header := &Header{
 			Default:     at.DefaultValue,
 			Description: at.Description,
-			Type:        at.Type.Name(),
+			Type:        p.Type,
+			Format:      p.Format,
+			Items:       p.Items,
+		}
+		if p.Items != nil {
+			header.CollectionFormat = "csv"
 		}
 		initValidations(at, header)
 		res[n] = header
